@@ -92,8 +92,9 @@ func vfC16Gen(rt *rapid.T) vfC16Plan {
 
 // vfC16Pool observes frees of pooled buffers.
 type vfC16Pool struct {
-	mu   sync.Mutex
-	puts map[*[]byte]int
+	mu      sync.Mutex
+	puts    map[*[]byte]int
+	onEvent func() // called outside p.mu; lets the harness yield when the control buffer's mutex is not held
 }
 
 func (p *vfC16Pool) Get(n int) *[]byte { b := make([]byte, n); return &b }
@@ -101,6 +102,9 @@ func (p *vfC16Pool) Put(b *[]byte) {
 	p.mu.Lock()
 	p.puts[b]++
 	p.mu.Unlock()
+	if p.onEvent != nil {
+		p.onEvent()
+	}
 }
 
 type vfC16Event struct {
@@ -148,6 +152,13 @@ func vfC16Exec(p vfC16Plan) vk.Result {
 	pool := &vfC16Pool{puts: map[*[]byte]int{}}
 
 	var mu sync.Mutex // guards events, orphans
+	classes0 := map[string]bool{}
+	var maybeYieldFn func(string)
+	maybeYield := func(point string) {
+		if maybeYieldFn != nil {
+			maybeYieldFn(point)
+		}
+	}
 	var events []vfC16Event
 	logEv := func(e vfC16Event) { mu.Lock(); events = append(events, e); mu.Unlock() }
 	orphans := map[int]int{}      // clientHeaders id -> onOrphaned calls
@@ -178,6 +189,7 @@ func vfC16Exec(p vfC16Plan) vk.Result {
 				orphans[id]++
 				orphanErrs[id] = err
 				mu.Unlock()
+				maybeYield("orphan.callback")
 			}}
 		}
 		itemOf[it] = id
@@ -187,6 +199,17 @@ func vfC16Exec(p vfC16Plan) vk.Result {
 
 	c := sched.New(p.Sched)
 	defer c.Close()
+	// Cleanup callbacks (onOrphaned, buffer Free) are yield points whenever they run without the control
+	// buffer's mutex: exactly one worker runs at a time, so TryLock fails iff the caller itself holds it
+	// (parking a worker that holds the mutex would hang the bubble).
+	maybeYieldFn = func(point string) {
+		if cb.mu.TryLock() {
+			cb.mu.Unlock()
+			classes0["cleanup_callback_outside_mutex"] = true
+			c.Yield(point)
+		}
+	}
+	pool.onEvent = func() { maybeYield("pool.put") }
 	doneClosed := false
 	closeDone := func() {
 		if !doneClosed {
@@ -225,6 +248,7 @@ func vfC16Exec(p vfC16Plan) vk.Result {
 		}
 		if p.Finish == 2 {
 			c.Yield("op")
+			logEv(vfC16Event{worker: vfC16Consumer, kind: "finishStart"})
 			cb.finish()
 			logEv(vfC16Event{worker: vfC16Consumer, kind: "finishDone"})
 		}
@@ -258,6 +282,7 @@ func vfC16Exec(p vfC16Plan) vk.Result {
 	if p.Finish == 1 {
 		c.Go(vfC16Finisher, func() {
 			c.Yield("op")
+			logEv(vfC16Event{worker: vfC16Finisher, kind: "finishStart"})
 			cb.finish()
 			logEv(vfC16Event{worker: vfC16Finisher, kind: "finishDone"})
 		})
@@ -277,6 +302,7 @@ func vfC16Exec(p vfC16Plan) vk.Result {
 	var queue []vfC16ModelItem
 	count := 0
 	closed := false
+	finishing := 0 // finish calls that have started and not returned: the close takes effect somewhere in between
 	mDone := false
 	expOrphans := map[int]int{}
 	expFrees := map[int]int{}
@@ -294,6 +320,9 @@ func vfC16Exec(p vfC16Plan) vk.Result {
 		case "putDone":
 			kind := kindOf[e.item]
 			switch {
+			case !closed && finishing > 0 && !e.ok && e.err == ErrConnClosing:
+				// the put raced with a finish in progress and was rejected: the close had already taken effect
+				classes["put_rejected_during_finish"] = true
 			case closed:
 				if e.ok || e.err != ErrConnClosing {
 					return fmt.Sprintf("put of item %d (kind %d) after finish returned (%v, %v), want (false, ErrConnClosing)", e.item, kind, e.ok, e.err)
@@ -319,7 +348,7 @@ func vfC16Exec(p vfC16Plan) vk.Result {
 		case "getDone":
 			switch {
 			case e.err != nil && e.err == ErrConnClosing:
-				if !closed {
+				if !closed && finishing == 0 {
 					return fmt.Sprintf("get returned ErrConnClosing but finish has not been called")
 				}
 			case e.err != nil:
@@ -353,7 +382,10 @@ func vfC16Exec(p vfC16Plan) vk.Result {
 				}
 				queue = queue[1:]
 			}
+		case "finishStart":
+			finishing++
 		case "finishDone":
+			finishing--
 			if !closed {
 				closed = true
 				for _, it := range queue {
@@ -406,6 +438,9 @@ func vfC16Exec(p vfC16Plan) vk.Result {
 	}
 
 	finish := func(r vk.Result) vk.Result {
+		for k := range classes0 {
+			classes[k] = true
+		}
 		for k := range classes {
 			r.Classes = append(r.Classes, k)
 		}
